@@ -160,10 +160,13 @@ def parseTx (s : DState) (ws : List String) : DState × Option Tx :=
       mk s (.recoverNeo x y (pre == "pre=ok"))
     | "policy.setWhitelistFeeContract", c :: _ =>
       let (s, x) := acctOf s c
-      mk s (.committeeAbout x)
+      mk s (.about x true)
     | "policy.removeWhitelistFeeContract", c :: _ =>
       let (s, x) := acctOf s c
-      mk s (.committeeAbout x)
+      mk s (.about x true)
+    | "kv.update", [c] =>
+      let (s, x) := acctOf s c
+      mk s (.about x false)
     | "fault", [] => mk s .fault
     | _, _ => mk s .other
   | _ => (s, none)
@@ -189,6 +192,9 @@ def wlOpOf (s : DState) (ws : List String) : DState × Option Whitelist.Op :=
     let (s, mi) := methodId s m
     (s, some (.remove (acctId a, mi)))
   | _ :: _ :: "kv.destroy" :: c :: _ =>
+    let (s, a) := acctOf s c
+    (s, some (.clean (acctId a)))
+  | _ :: _ :: "kv.update" :: c :: _ =>   -- Management.Update cleans the contract's whitelist (management.go)
     let (s, a) := acctOf s c
     (s, some (.clean (acctId a)))
   | _ => (s, none)
